@@ -33,12 +33,14 @@ NPROC = int(os.environ.get("VERIF_JOBS", "16"))
 
 
 def load_known():
-    p = os.path.join(VERIF, "known_findings.json")
-    if not os.path.exists(p):
-        return []
-    with open(p) as f:
-        d = json.load(f)
-    return [e for e in d.get("findings", []) if e.get("status", "open") == "open"]
+    import glob
+    out = []
+    # known_findings.json plus per-property continuation files known_findings_<id>.json (same format, committed by hand)
+    for p in sorted(glob.glob(os.path.join(VERIF, "known_findings*.json"))):
+        with open(p) as f:
+            d = json.load(f)
+        out += [e for e in d.get("findings", []) if e.get("status", "open") == "open"]
+    return out
 
 
 def _worker_env(scratch, idx):
